@@ -16,7 +16,7 @@ var ListFns = map[string]bool{
 
 // NullKinds enumerates the null-like items of C13: nil, Null(), and items
 // built only from such items.
-var NullKinds = []string{"nil", "nilstmt", "nilgroup", "Null", "emptystmt", "Add()", "List()", "Union()", "Tag(nil)", "Tag(map{})", "Null.Null", "stmt-of-nulls", "List(nil,Null)", "Add(List())", "Union(nil)"}
+var NullKinds = []string{"nil", "nilstmt", "nilgroup", "Null", "emptystmt", "Add()", "List()", "Union()", "Tag(nil)", "Tag(map{})", "Null.Null", "stmt-of-nulls", "List(nil,Null)", "Add(List())", "Union(nil)", "Custom(nulls)", "CustomMulti(nulls)", "CustomMulti()", "List(CustomMulti(nil))", "CustomFunc(nulls)"}
 
 // NullItem builds the null-like item of the given kind.
 func NullItem(kind string) *recipe.Node {
@@ -53,6 +53,19 @@ func NullItem(kind string) *recipe.Node {
 		return recipe.S().C("Add", recipe.S().C("List"))
 	case "Union(nil)":
 		return recipe.S().C("Union", recipe.Nil())
+	// delimiter-less groups made only of nulls
+	case "Custom(nulls)":
+		return recipe.S().C("Custom", &recipe.Opts{Separator: ","}, recipe.Nil(), recipe.Null())
+	case "CustomMulti(nulls)":
+		return recipe.S().C("Custom", &recipe.Opts{Multi: true}, recipe.Nil(), recipe.Null(), recipe.S())
+	case "CustomMulti()":
+		return recipe.S().C("Custom", &recipe.Opts{Multi: true, Separator: ";"})
+	case "List(CustomMulti(nil))":
+		return recipe.S().C("List", recipe.S().C("Custom", &recipe.Opts{Multi: true}, recipe.Nil()))
+	case "CustomFunc(nulls)":
+		n := recipe.S()
+		n.Calls = append(n.Calls, recipe.Call{Fn: "CustomFunc", Opts: &recipe.Opts{Multi: true}, Items: []*recipe.Node{recipe.Null(), recipe.Nil()}})
+		return n
 	}
 	panic("unknown null kind " + kind)
 }
